@@ -105,6 +105,10 @@ def scenarios(ctx):
                            budgets=dict(pub=3 if q else 4, ack=3 if q else 5, dack=1 if q else 2, stray=1, setwin=1,
                                         tick=1 if q else 2),
                            windows=(1, 2, 3), pub_qos=(0, 1, 2)))
+    out.append(Std('pub-q2-deep', profile='pub', init=CONNECTED, pub_qos=(2,),
+                   budgets=dict(pub=1 if q else 2, ack=3, dack=1, tick=3 if q else 4)))
+    out.append(Std('pub-reenter', profile='pub', init=CONNECTED + (('setwin', 0, 2),), pub_qos=(1, 2), reenter=('pub',),
+                   budgets=dict(pub=2, ack=3, tick=1)))
     out.append(Std('pub-connecting', profile='pub', connects=[(True, 0, 4), (False, 0, 3)],
                    budgets=dict(connect=1, connack=1, pub=2 if q else 3, ack=3, dack=1, tick=1 if q else 2)))
     return out
